@@ -229,7 +229,7 @@ def build_operators(spec_ops, params, joint):
         ops.append(op)
     for o, op in zip(spec_ops, ops):
         # the window length the object really has (from_json applies the JSON layer's default)
-        o["window_len"] = int(op._accept_window_length)
+        o["window_len"] = window_length(op)
     return ops
 
 
@@ -300,10 +300,7 @@ def make_failing_operator(torch):
 
 def tunables(op):
     """everything tune() of an operator may legitimately change on ITS OWN operator"""
-    out = {"adapt_count": op._adapt_count}
-    for a in ("_scaler", "_width"):
-        if hasattr(op, a):
-            out[a] = getattr(op, a)
+    out = {"adapt_count": op_public(op)["adapt_count"], "tuning_parameter": scale_of(op)}
     if hasattr(op, "_integrator"):
         out["step_size"] = float(op._integrator.step_size)
         out["adaptors"] = [adaptor_state(a) for a in op._adaptors]
@@ -372,14 +369,33 @@ class IntegProxy:
         setattr(self.inner, k, v)
 
 
+# --------------------------------------------------------------------------- observing operators through their public API
+def op_public(op):
+    """counters and window of an operator as its own state_dict() publishes them (keys adapt_count / accept / reject /
+    accept_window): no private attribute names"""
+    try:
+        sd = op.state_dict()
+        return {"adapt_count": sd.get("adapt_count"), "accept": sd.get("accept"), "reject": sd.get("reject"),
+                "window": list(sd.get("accept_window", []))}
+    except Exception as e:  # harness introspection problems are never evidence against the code
+        return {"adapt_count": None, "accept": None, "reject": None, "window": None, "error": f"{type(e).__name__}: {e}"}
+
+
+def window_length(op):
+    """length of the acceptance window, found by ROLE: the instance attribute that bounds the deque appended to by
+    accept()/reject() — whatever it is called — is the one whose name mentions both 'window' and 'length'"""
+    for k, v in vars(op).items():
+        if "window" in k and "length" in k:
+            return int(v)
+    return 100
+
+
 def scale_of(op):
     if type(op).__name__ == "FailingOperator":
         return 1.0
     if hasattr(op, "_integrator"):
         return float(op._integrator.step_size)
-    if hasattr(op, "_width"):
-        return float(op._width)
-    return float(op._scaler)
+    return float(op.tuning_parameter)
 
 
 def branch_probe(adaptors, rng, sample, accepted):
@@ -603,7 +619,7 @@ def execute_run(cfg, tape_seed):
             cur.update({"in_iter": True, "op": idx, "before": snap(), "scale_before": scale_of(op),
                         "ev0": len(sc.events) - 1,  # the Categorical draw belongs to this iteration
                         "ret0": len(op._integrator.returned) if is_hmc else 0})
-            cur["n_accept_before"] = op._accept
+            cur["n_accept_before"] = op_public(op)["accept"]
             cur["masses"] = {j: o2._mass_matrix.tensor.detach().clone().tolist()
                              for j, o2 in enumerate(ops) if hasattr(o2, "_mass_matrix")}
             if is_hmc:
@@ -651,9 +667,10 @@ def execute_run(cfg, tape_seed):
                 cur["adaptors_after"] = [adaptor_state(a) for a in op._adaptors]
                 cur["mass_after"] = op._mass_matrix.tensor.detach().clone().tolist()
             cur["scale_after"] = scale_of(op)
-            cur["adapt_count"] = op._adapt_count
-            cur["n_accept"], cur["n_reject"] = op._accept, op._reject
-            cur["window"] = list(op._accept_window)
+            pub = op_public(op)
+            cur["adapt_count"] = pub["adapt_count"]
+            cur["n_accept"], cur["n_reject"] = pub["accept"], pub["reject"]
+            cur["window"] = pub["window"]
             cur["events"] = list(sc.events[cur["ev0"]:])
             if hasattr(op, "_integrator"):
                 cur["returned"] = op._integrator.returned[cur["ret0"]:]
@@ -1579,18 +1596,25 @@ def real_tune(kind, scale, acc, target, count):
 
     mod, cname = {k: (m, c) for k, m, c in tr_tuning.CLASSES}[kind]
     cls = getattr(importlib.import_module(mod), cname)
-    op = cls.__new__(cls)
-    op._adapt_count, op._disable_adaptation, op.target_acceptance_probability = count, False, target
-    if kind == "hmc":
-        class I:
-            step_size = scale
-        op._integrator, op._adaptors = I(), []
-    elif kind == "window":
-        op._width = scale
+    if kind in ("scaler", "window", "dirichlet"):
+        from torchtree.core.parameter import Parameter
+
+        # public route: constructor, then load_state_dict with the keys state_dict() publishes
+        op = cls("op", [Parameter("x", torch.tensor([0.5, 0.5], dtype=torch.float64))], 1.0, target, scale)
+        sd = op.state_dict()
+        sd["adapt_count"] = count
+        op.load_state_dict(sd)
     else:
-        op._scaler = scale
+        op = cls.__new__(cls)
+        op._adapt_count, op._disable_adaptation, op.target_acceptance_probability = count, False, target
+        if kind == "hmc":
+            class I:
+                step_size = scale
+            op._integrator, op._adaptors = I(), []
+        else:
+            op._scaler = scale
     op.tune(torch.tensor(acc, dtype=torch.float64), sample=1, accepted=True)
-    return scale_of(op), op._adapt_count
+    return scale_of(op), (op_public(op)["adapt_count"] if kind in ("scaler", "window", "dirichlet") else op._adapt_count)
 
 
 def tuning_cases(ck: Check, drv, rng, n, found):
@@ -1756,7 +1780,15 @@ def gen_cfg(rng, family, adapt, iterations):
         d.update(kw)
         return d
 
-    if family == "edge" and rng.random() < 0.5:
+    if family == "edge" and rng.random() < 0.34:
+        # moves far below any "close enough" tolerance (relative 1e-6) on a target sharper still: almost every move is
+        # rejected and must be undone EXACTLY
+        n = rng.randint(1, 2)
+        t = {"kind": "normal", "loc": [1.0] * n, "scale": [1e-7] * n, "init": [[1.0] * n]}
+        ops = [op("window", [0], 1e-6, adapt=False, weight=1.0), op("scaler", [0], 0.999999, adapt=False, weight=1.0)]
+        iterations = max(iterations, 40)
+        exact = True
+    elif family == "edge" and rng.random() < 0.5:
         # a sharp target and a scale factor close to 1 with a high target acceptance: early moves are mostly
         # rejected, the tuned scale factor is pushed towards 1 (it must never cross it), later tiny moves are accepted
         n = rng.randint(1, 2)
